@@ -47,7 +47,7 @@ TITLES = ["Pg", "Talk:Zz", "User talk:A/b", "Template:Foo/doc", "Module:m", "Cat
 
 def floors(tier):
     return {"counters.part.A": 200, "counters.part.B": 1000, "counters.part.C": 500, "counters.part.D": 100,
-            "oracle.returns-str-in-budget": 3000, "oracle.cycle-reported-in-band": 50, "counters.loop_detector_fired": 50,
+            "oracle.returns-str-in-budget": 3000, "oracle.cycle-reported-in-band": 50, "counters.loop_detector_fired": 50, "counters.redirect-libraries": 10,
             "counters.depth_limit_fired": 1, "sets.parser_functions": 140, "anchors.parserfns.expr_fn": 300,
             "anchors.core.detect_expand_template_loop": 300}
 
@@ -73,10 +73,17 @@ def ctx():
     return _CTX[1]
 
 
+_LIB = {}
+
+
 def load_library(c, lib_texts):
+    _LIB["cur"] = lib_texts
     c.db_conn.execute("DELETE FROM pages WHERE namespace_id = 10")
     for n, b in lib_texts.items():
-        c.add_page("Template:" + n, 10, b)
+        if isinstance(b, str) and b.startswith("#REDIRECT>"):
+            c.add_page("Template:" + n, 10, None, redirect_to=b[10:])     # a redirect page
+        else:
+            c.add_page("Template:" + n, 10, b)
     try:
         type(c).get_page.cache_clear()
     except AttributeError:
@@ -144,6 +151,42 @@ def periodic_branching(rng):
     return lib, "{{ta}}"
 
 
+def redirect_case(rng):
+    """Libraries with redirect pages: chains, self-redirects and redirect cycles, targets spelled canonically or not
+    (lower-case initial, '_' for blank, prefix omitted / aliased / other case)."""
+    def sp(name):       # a spelling of Template:<name>
+        r = rng.randrange(7)
+        core = name
+        if r == 1:
+            core = name[0].lower() + name[1:]
+        elif r == 2:
+            core = name.replace(" ", "_")
+        pre = ["Template:", "Template:", "template:", "T:", "", "Template:", "TEMPLATE:"][r]
+        return pre + core
+    names = ["Ra", "Rb c", "Rd"]
+    shape = rng.randrange(5)
+    lib = {"tz": "Z[{{{1|}}}]"}
+    if shape == 0:      # self-redirect
+        lib["Ra"] = "#REDIRECT>" + sp("Ra")
+    elif shape == 1:    # 2-cycle
+        lib["Ra"] = "#REDIRECT>" + sp("Rb c")
+        lib["Rb c"] = "#REDIRECT>" + sp("Ra")
+    elif shape == 2:    # 3-cycle
+        lib["Ra"] = "#REDIRECT>" + sp("Rb c")
+        lib["Rb c"] = "#REDIRECT>" + sp("Rd")
+        lib["Rd"] = "#REDIRECT>" + sp("Ra")
+    elif shape == 3:    # chain ending in a template / in nothing
+        lib["Ra"] = "#REDIRECT>" + sp("Rb c")
+        lib["Rb c"] = "#REDIRECT>" + sp(rng.choice(["tz", "Nowhere"]))
+    else:               # redirect to a template that calls the redirect again
+        lib["Ra"] = "#REDIRECT>" + sp("Rd")
+        lib["Rd"] = "x{{Ra}}{{rb c|{{ra}}}}"
+        lib["Rb c"] = "#REDIRECT>" + sp("Ra")
+    text = " ".join(rng.choice(["{{Ra}}", "{{ra|1}}", "{{Rb c}}", "{{rb_c|x}}", "{{Template:Rd}}", "{{T:ra}}", "{{#if:{{Ra}}|y|n}}", "{{tz|{{Rb c}}}}"])
+                    for _ in range(rng.randint(1, 3)))
+    return lib, text
+
+
 def deep_case(rng):
     d = rng.randint(1, 100)
     r = rng.random()
@@ -196,6 +239,12 @@ def call_contexts(text):
 
 
 def recursion_shape(lib_texts, text):
+    if any(isinstance(b, str) and b.startswith("#REDIRECT>") for b in lib_texts.values()):
+        return "library-with-redirect-pages"
+    return _recursion_shape(lib_texts, text)
+
+
+def _recursion_shape(lib_texts, text):
     """Mechanism tag for a runaway expansion.  Which bodies call templates that lie on a call-graph cycle, how many
     times, and do those calls sit in the SAME argument position (the expansion stack then repeats one pattern, which the
     loop detector is meant to recognise) or in DIFFERENT positions (aperiodic stack paths)?"""
@@ -286,6 +335,12 @@ def pf_case(rng, fn):
 
 
 def expr_case(rng):
+    if rng.random() < 0.04:
+        # deeply nested / very long well-formed expressions (the evaluator is recursive descent)
+        k = rng.choice([30, 49, 60, 100, 200, 400])
+        e = rng.choice(["(" * k + "1" + ")" * k, "-" * (k * 10) + "1", "not " * (k * 5) + "1", "1" + "+1" * (k * 20),
+                        "(" * k + "1" + "+1)" * k, "abs " * k + "-1", "2" + "^1" * k])
+        return rng.choice(["{{#expr:%s}}", "{{#ifexpr:%s|T|F}}", "{{plural:%s|a|b}}", "{{ta|{{ta|{{ta|{{#expr:%s}}}}}}}}"]).replace("%s", e)
     toks = [rng.choice(EXPR_TOK) for _ in range(rng.randint(1, 9))]
     sep = rng.choice([" ", " ", ""])
     e = sep.join(toks)
@@ -304,7 +359,12 @@ def classify_exc(e, fnhint):
     return "raises:%s@%s:%s" % (type(e).__name__, fl, f)
 
 
+PLAIN_LIB = {"ta": "[{{{1|}}}]"}
+
+
 def one(c, rng, obs, budget, part, fnlist, i):
+    if _LIB.get("cur") is not PLAIN_LIB:
+        load_library(c, PLAIN_LIB)       # parts B-D never run against a left-over (possibly cyclic) library
     if part == "B":
         fn = fnlist[i % len(fnlist)]
         text = pf_case(rng, fn)
@@ -365,6 +425,10 @@ def run_shard(spec):
                 lib_t, text = periodic_branching(rng)
                 case, probs = part_a(c, rng, obs, budget, graph=(lib_t, text))
                 obs.count("periodic-branching")
+            elif i % 50 in (11, 21, 31):
+                lib_t, text = redirect_case(rng)
+                case, probs = part_a(c, rng, obs, budget, graph=(lib_t, text))
+                obs.count("redirect-libraries")
             elif rng.random() < 0.2:
                 load_library(c, {"ta": "[{{{1|}}}]"})
                 text = deep_case(rng)
